@@ -259,6 +259,13 @@ def c14():
         for (par, cache, reopen, wire) in ccells:
             bs.append({"id": len(bs) + 1, "group": h, "cfg": ["wa", "exp"][h % 2], "conc": h % 3, "labels": labels, "values": values,
                        "cell": {"par": par, "cache": cache, "reopen": reopen, "wire": wire}, "kinds": [], "sweep": "end", "steps": steps})
+    # one long single-label history (70 versions: beyond every preload / batching bound in the code, crossing the
+    # marker powers of two and the skip-list element 16 and 64), read back completely and in part
+    for h2, cfgname in enumerate(["wa", "exp"]):
+        steps = [{"op": "publish", "batch": [["a", ["x", "y"][i % 2]]] + ([["b", "x"]] if i == 0 else [])} for i in range(70)]
+        for ci, (par, cache, reopen, wire) in enumerate([("disabled", "none", "same", False), ("s2", "default", "same", True)]):
+            bs.append({"id": len(bs) + 1, "group": len(hist) + h2, "cfg": cfgname, "conc": 0, "labels": ["a", "b"], "values": ["x", "y"],
+                       "cell": {"par": par, "cache": cache, "reopen": reopen, "wire": wire}, "kinds": ["history", "lookup", "epoch_hash"], "sweep": "end", "steps": steps})
     full = run_dir_harness(chk, bs, name="full")
     plain = run_dir_harness(chk, bs, name="plain", plain=True)
     merged = merge_traces(full, plain, f"{chk.wd}/merged")
